@@ -6,7 +6,8 @@ package postgres
 // from this file with or without the tag. Syntax: see /verif/DESIGN.md.
 
 //@ func (*PostgresStoreWorker).readPromise
-//@ props C16 C17
+//@ props C17
+//@ nopanic C13
 //@ ghostdb store
 //@ requires cmd != nil
 //@ ensures err == nil ==> db_is_cmd(cmd)
@@ -14,7 +15,8 @@ package postgres
 //@ ensures err != nil ==> result == nil
 
 //@ func (*PostgresStoreWorker).createPromise
-//@ props C16 C17
+//@ props C17
+//@ nopanic C13
 //@ ghostdb store
 //@ stmt stmt PROMISE_INSERT_STATEMENT
 //@ requires cmd != nil
@@ -24,7 +26,8 @@ package postgres
 //@ ensures err != nil ==> result == nil
 
 //@ func (*PostgresStoreWorker).createPromiseAndTask
-//@ props C16 C17
+//@ props C17
+//@ nopanic C13
 //@ ghostdb store
 //@ stmt promiseStmt PROMISE_INSERT_STATEMENT
 //@ stmt taskStmt TASK_INSERT_STATEMENT
@@ -39,7 +42,8 @@ package postgres
 //@ ensures err != nil ==> result == nil
 
 //@ func (*PostgresStoreWorker).updatePromise
-//@ props C16 C17
+//@ props C17
+//@ nopanic C13
 //@ ghostdb store
 //@ stmt stmt PROMISE_UPDATE_STATEMENT
 //@ requires cmd != nil
@@ -50,7 +54,8 @@ package postgres
 //@ ensures err != nil ==> result == nil
 
 //@ func (*PostgresStoreWorker).createCallback
-//@ props C16 C17
+//@ props C17
+//@ nopanic C13
 //@ ghostdb store
 //@ stmt stmt CALLBACK_INSERT_STATEMENT
 //@ requires cmd != nil
@@ -60,7 +65,8 @@ package postgres
 //@ ensures err != nil ==> result == nil
 
 //@ func (*PostgresStoreWorker).deleteCallbacks
-//@ props C16 C17
+//@ props C17
+//@ nopanic C13
 //@ ghostdb store
 //@ stmt stmt CALLBACK_DELETE_STATEMENT
 //@ requires cmd != nil
@@ -69,7 +75,8 @@ package postgres
 //@ ensures err != nil ==> result == nil
 
 //@ func (*PostgresStoreWorker).readSchedule
-//@ props C16 C17
+//@ props C17
+//@ nopanic C13
 //@ ghostdb store
 //@ requires cmd != nil
 //@ ensures err == nil ==> db_is_cmd(cmd)
@@ -77,7 +84,8 @@ package postgres
 //@ ensures err != nil ==> result == nil
 
 //@ func (*PostgresStoreWorker).createSchedule
-//@ props C16 C17
+//@ props C17
+//@ nopanic C13
 //@ ghostdb store
 //@ stmt stmt SCHEDULE_INSERT_STATEMENT
 //@ requires cmd != nil
@@ -87,7 +95,8 @@ package postgres
 //@ ensures err != nil ==> result == nil
 
 //@ func (*PostgresStoreWorker).updateSchedule
-//@ props C16 C17
+//@ props C17
+//@ nopanic C13
 //@ ghostdb store
 //@ stmt stmt SCHEDULE_UPDATE_STATEMENT
 //@ requires cmd != nil
@@ -96,7 +105,8 @@ package postgres
 //@ ensures err != nil ==> result == nil
 
 //@ func (*PostgresStoreWorker).deleteSchedule
-//@ props C16 C17
+//@ props C17
+//@ nopanic C13
 //@ ghostdb store
 //@ stmt stmt SCHEDULE_DELETE_STATEMENT
 //@ requires cmd != nil
@@ -105,7 +115,8 @@ package postgres
 //@ ensures err != nil ==> result == nil
 
 //@ func (*PostgresStoreWorker).readLock
-//@ props C16 C17
+//@ props C17
+//@ nopanic C13
 //@ ghostdb store
 //@ requires cmd != nil
 //@ ensures err == nil ==> db_is_cmd(cmd)
@@ -113,7 +124,8 @@ package postgres
 //@ ensures err != nil ==> result == nil
 
 //@ func (*PostgresStoreWorker).acquireLock
-//@ props C16 C17
+//@ props C17
+//@ nopanic C13
 //@ ghostdb store
 //@ stmt stmt LOCK_ACQUIRE_STATEMENT
 //@ requires cmd != nil
@@ -122,7 +134,8 @@ package postgres
 //@ ensures err != nil ==> result == nil
 
 //@ func (*PostgresStoreWorker).releaseLock
-//@ props C16 C17
+//@ props C17
+//@ nopanic C13
 //@ ghostdb store
 //@ stmt stmt LOCK_RELEASE_STATEMENT
 //@ requires cmd != nil
@@ -131,7 +144,8 @@ package postgres
 //@ ensures err != nil ==> result == nil
 
 //@ func (*PostgresStoreWorker).hearbeatLocks
-//@ props C16 C17
+//@ props C17
+//@ nopanic C13
 //@ ghostdb store
 //@ stmt stmt LOCK_HEARTBEAT_STATEMENT
 //@ requires cmd != nil
@@ -140,7 +154,8 @@ package postgres
 //@ ensures err != nil ==> result == nil
 
 //@ func (*PostgresStoreWorker).timeoutLocks
-//@ props C16 C17
+//@ props C17
+//@ nopanic C13
 //@ ghostdb store
 //@ stmt stmt LOCK_TIMEOUT_STATEMENT
 //@ requires cmd != nil
@@ -149,7 +164,8 @@ package postgres
 //@ ensures err != nil ==> result == nil
 
 //@ func (*PostgresStoreWorker).readTask
-//@ props C16 C17
+//@ props C17
+//@ nopanic C13
 //@ ghostdb store
 //@ requires cmd != nil
 //@ ensures err == nil ==> db_is_cmd(cmd)
@@ -157,7 +173,8 @@ package postgres
 //@ ensures err != nil ==> result == nil
 
 //@ func (*PostgresStoreWorker).createTask
-//@ props C16 C17
+//@ props C17
+//@ nopanic C13
 //@ ghostdb store
 //@ stmt stmt TASK_INSERT_STATEMENT
 //@ requires cmd != nil
@@ -169,7 +186,8 @@ package postgres
 //@ ensures err != nil ==> result == nil
 
 //@ func (*PostgresStoreWorker).createTasks
-//@ props C16 C17
+//@ props C17
+//@ nopanic C13
 //@ ghostdb store
 //@ stmt stmt TASK_INSERT_ALL_STATEMENT
 //@ requires cmd != nil
@@ -178,7 +196,8 @@ package postgres
 //@ ensures err != nil ==> result == nil
 
 //@ func (*PostgresStoreWorker).completeTasks
-//@ props C16 C17
+//@ props C17
+//@ nopanic C13
 //@ ghostdb store
 //@ stmt stmt TASK_COMPLETE_BY_ROOT_ID_STATEMENT
 //@ requires cmd != nil
@@ -187,7 +206,8 @@ package postgres
 //@ ensures err != nil ==> result == nil
 
 //@ func (*PostgresStoreWorker).updateTask
-//@ props C16 C17
+//@ props C17
+//@ nopanic C13
 //@ ghostdb store
 //@ stmt stmt TASK_UPDATE_STATEMENT
 //@ requires cmd != nil
@@ -198,7 +218,8 @@ package postgres
 //@ loop 1 invariant rangeindex + 1 <= len(cmd.CurrentStates) && currentStates == maskprefix(cmd.CurrentStates, rangeindex + 1)
 
 //@ func (*PostgresStoreWorker).heartbeatTasks
-//@ props C16 C17
+//@ props C17
+//@ nopanic C13
 //@ ghostdb store
 //@ stmt stmt TASK_HEARTBEAT_STATEMENT
 //@ requires cmd != nil
